@@ -215,3 +215,26 @@ Lemma addressless_cache_refuted :
   (snd (run_history w_cached_step [] (w_login :: w_forged :: nil)) = (Ok w_attacker_key :: Ok w_attacker_key :: nil)) /\
   (map w_stateless (w_login :: w_forged :: nil) = (Ok w_attacker_key :: Err EOther :: nil)).
 Proof. repeat split; vm_compute; reflexivity. Qed.
+
+(** * Laying the secret out as a 64-byte HMAC block in the constructor (seeded mutant C19-r3m2):
+      [copy(key[:], secret)] drops everything after byte 64, whereas HMAC hashes longer keys.
+      With any MAC that depends on the whole key, two servers whose secrets agree on the first
+      64 bytes then accept each other's payloads, and a payload issued the documented way
+      under the full secret is rejected. *)
+Definition block_key (s : bytes) : bytes := firstn 64 s ++ repeat 0%N (64 - length s).
+(* a toy MAC in which every key byte matters (the last ones first) *)
+Definition w_mac (k m : bytes) : bytes := firstn 32 (rev k ++ m ++ repeat 0%N 32).
+Definition w_secret_a : bytes := repeat 1%N 64 ++ [3%N].
+Definition w_secret_b : bytes := repeat 1%N 64 ++ [2%N].
+Definition w_nonce : bytes := repeat 7%N 8.
+
+Lemma block_key_design_refuted :
+  (* the model: B rejects A's payload, each accepts its own *)
+  (check_payload w_mac w_secret_b 300 0 (generate_payload w_mac w_secret_a w_nonce 300 0) = Ok false) /\
+  (check_payload w_mac w_secret_a 300 0 (generate_payload w_mac w_secret_a w_nonce 300 0) = Ok true) /\
+  (* the block-key design: B accepts A's payload ... *)
+  (check_payload w_mac (block_key w_secret_b) 300 0
+     (generate_payload w_mac (block_key w_secret_a) w_nonce 300 0) = Ok true) /\
+  (* ... and A rejects a payload issued under its own full secret *)
+  (check_payload w_mac (block_key w_secret_a) 300 0 (generate_payload w_mac w_secret_a w_nonce 300 0) = Ok false).
+Proof. repeat split; vm_compute; reflexivity. Qed.
